@@ -281,4 +281,99 @@ def confList : List Fld → List J → Bool
 termination_by structural _ xs => xs
 end
 
+/-! ### the region in which `Sync` holds at every nested level (deserializer side)
+
+  The deserializer re-aggregates every nested class from the mapper it is handed down.  Inside the
+  region below its resolved mapper at every level is literally the list `shapeFields L fs` for the
+  same mapper list `L` that governs the serializer's level, so both sides resolve every field alike. -/
+
+def isEnumMapper : Mapper → Bool
+  | .dict _ => false
+  | _ => true
+
+def enumsOf (L : List Mapper) : List Mapper := L.filter isEnumMapper
+
+/-- an enum mapper, or a dict without `"<field>._mapper"` entries and without dict values -/
+def plainMapper : Mapper → Bool
+  | .dict d => d.all fun p =>
+      (match p.1 with | .fld _ => true | .nest _ => false) && (match p.2 with | .sub _ => false | _ => true)
+  | _ => true
+
+/-- the name under which the deserializer's aggregate keeps the nested entry of field `n` after the
+    rounds of `L` (re-keyed by the mapped name in every round) -/
+def nk (S : StrFns) (L : List Mapper) (n : String) : String :=
+  L.foldl (fun c m => nestName (applyKey S m c)) n
+
+/-- the nested class's own deserialization aggregate with the enum mappers of the outer list on top -/
+def handed (S : StrFns) (L own : List Mapper) (fs : List Fld) : MDict :=
+  foldAdd S false (enumsOf L) (foldAdd S false own (baseFields S false fs))
+
+def shapeFld (S : StrFns) (L : List Mapper) : Fld → MDict
+  | .scalar n _ => [(.fld n, keyOf S L n)]
+  | .nested n _ _ own fs => [(.nest (nk S L n), .sub (handed S L own fs)), (.fld n, keyOf S L n)]
+
+/-- the deserializer's aggregate of a class with fields `fs` after the rounds of `L`, entry by entry -/
+def shapeFields (S : StrFns) (L : List Mapper) : List Fld → MDict
+  | [] => []
+  | f :: fs => shapeFld S L f ++ shapeFields S L fs
+
+def mkeysNodup (d : MDict) : Bool := decide (d.map (·.1)).Nodup
+
+/-- no two entries collide (nested entries are re-keyed) after any round of `Ms` on top of `P` -/
+def prefixOK (S : StrFns) (fs : List Fld) : List Mapper → List Mapper → Bool
+  | _, [] => true
+  | P, m :: Ms => mkeysNodup (shapeFields S (P ++ [m]) fs) && prefixOK S fs (P ++ [m]) Ms
+
+/-- the nested entry of field `n` is found under the field's mapped key -/
+def trackOK (S : StrFns) (L : List Mapper) (n : String) : Bool :=
+  match keyOf S L n with
+  | .key s => s == nk S L n
+  | _ => false
+
+/-- no *other* nested field's entry has been re-keyed onto the name `n` -/
+def noCross (S : StrFns) (L : List Mapper) (full : List Fld) (n : String) : Bool :=
+  (lookupR (.nest n) (shapeFields S L full)).isNone || (nk S L n == n)
+
+mutual
+/-- levels reached by re-aggregation (depth >= 1 below the top class): nested classes below have no own
+    mappers, nested entries are tracked and never collide -/
+def reaggFs (S : StrFns) (L : List Mapper) (full : List Fld) : List Fld → Bool
+  | [] => true
+  | f :: fs => reaggF S L full f && reaggFs S L full fs
+termination_by structural fs => fs
+def reaggF (S : StrFns) (L : List Mapper) (full : List Fld) : Fld → Bool
+  | .scalar _ _ => true
+  | .nested n _ _ own fs =>
+    own.isEmpty && trackOK S L n && noCross S L full n && !fs.isEmpty
+      && prefixOK S fs [] (enumsOf L) && mkeysNodup (shapeFields S (enumsOf L) fs)
+      && reaggFs S (enumsOf L) fs fs
+termination_by structural f => f
+end
+
+def reaggOK (S : StrFns) (L : List Mapper) (fs : List Fld) : Bool :=
+  mkeysNodup (shapeFields S L fs) && reaggFs S L fs fs
+
+/-- the top class: plain mappers in its list, and for every nested class plain own mappers, tracked
+    entry, and the nested level is a re-aggregation level under `own ++ enums` -/
+def regionNested (S : StrFns) (L : List Mapper) : Fld → Bool
+  | .scalar _ _ => true
+  | .nested n _ _ own fs =>
+    trackOK S L n && own.all plainMapper && !fs.isEmpty
+      && prefixOK S fs [] (own ++ enumsOf L) && reaggOK S (own ++ enumsOf L) fs
+
+/-- **the region**: a decidable predicate on the class tree and its mapper lists (with
+    `camel_case_convert` off) -/
+def regionOK (S : StrFns) (c : Cls) (ov : Option MDict) : Bool :=
+  wfFields c.fields && (effList c.own ov false).all plainMapper
+    && prefixOK S c.fields [] (effList c.own ov false)
+    && mkeysNodup (shapeFields S (effList c.own ov false) c.fields)
+    && c.fields.all (regionNested S (effList c.own ov false))
+
+def entryOKB (m : MDict) (p : String × J) : Bool := isKeyAt m p.1 || (isDnsAt m p.1 && p.2.isNull)
+
+/-- the demanded domain, with "every field resolves to a string key or is an absent `DoNotSerialize`
+    field" spelled out (a dict as a field's value is not a mapper) -/
+def levelDomE (S : StrFns) (ms M : MDict) (strict : Bool) (kvs : List (String × J)) : Bool :=
+  levelDom S ms M strict kvs && kvs.all (entryOKB ms)
+
 end Typedpy.Mappers
